@@ -189,6 +189,7 @@ def run_property(pid, tier="quick", seed=0, only=None, workers=None):
             except Exception as e:
                 report.extra.append({"name": getattr(step, "__name__", "extra"), "crash":
                                      "%s: %s\n%s" % (type(e).__name__, e, traceback.format_exc()[-2000:])})
+    report.link = getattr(mod, "link_replay", None)
     report.replay_failures()
     report.conformance()
     return report.finish()
@@ -287,6 +288,11 @@ class Report:
             self.nreplay += 1
             os.makedirs(os.path.join(EVID, "replay"), exist_ok=True)
             path = os.path.join(EVID, "replay", "%s-%d.json" % (self.pid, self.nreplay))
+            if rec["repro"] is None and getattr(self, "link", None):
+                try:
+                    rec["repro"] = self.link(ob["id"], self.extra)
+                except Exception:
+                    rec["repro"] = None
             doc = {"property": self.pid, "case": r["case"], "obligation": ob["id"], "path": ob["path"],
                    "solver": {"status": ob["status"], "backend": ob["backend"], "goal": ob.get("goal"),
                               "model_inputs": ob.get("inputs")},
